@@ -319,3 +319,20 @@ def data_stream_sites(p):
             else:
                 out.append((verb, h, st, None, "unknown"))
     return out
+
+
+def response_primitive(p):
+    """the `response=` argument of the session constructor as (arguments node, body call node) - a lambda, or a local
+    function of the dispatcher whose body is one `return <call>` / `<call>` statement; (None, None) otherwise"""
+    ctor = p.session_ctor()
+    resp = next((k.value for k in ctor.keywords if k.arg == "response"), None)
+    if isinstance(resp, ast.Lambda):
+        return resp.args, resp.body, resp
+    if isinstance(resp, ast.Name):
+        d = p.enclosing_function(ctor)
+        for n in ast.walk(d):
+            if isinstance(n, ast.FunctionDef) and n.name == resp.id:
+                body = [s for s in n.body if not (isinstance(s, ast.Expr) and isinstance(s.value, ast.Constant))]
+                if len(body) == 1 and isinstance(body[0], (ast.Return, ast.Expr)) and body[0].value is not None:
+                    return n.args, body[0].value, n
+    return None, None, resp
